@@ -20,7 +20,10 @@ META = {
                 "histories (3-5 replicas, forged/oversized/foreign-address operations, duplicated and reordered deliveries, "
                 "anti-entropy rounds, histories that reach and cross the real limit of 1024 entries with filler operations), on the real "
                 "code; TLC evaluates the same clause operators on every recorded call. Replayed scenarios are a sample of the model's "
-                "behaviours, not all of them.",
+                "behaviours, not all of them. Every scenario is also probed with tampered copies of authorised operations (content or "
+                "parents rewritten, or re-addressed from another register / another owner's register, signature kept) and with the "
+                "replica's base register altered (permissions, meta or owner swapped) under the owner's signature over the genuine base; "
+                "addresses vary in both halves (meta and owner); the merge laws are evaluated through merge and through verified_merge.",
         "note": "trusted: BLS signatures (an invalid signature is produced by signing other bytes / by another key / by flipping a byte), "
                 "the 64-bit DefaultHasher digest that register operations sign is not attacked, TLC, the abstraction of fillers as a count",
         "design_ref": "5 Area Register",
